@@ -1,0 +1,45 @@
+//go:build verif
+
+package compose
+
+import (
+	"errors"
+
+	"github.com/cloudwego/eino/internal/safe"
+)
+
+// VerifC13ErrInfo is the structure of the first internalError on err's chain
+// (what errors.As finds), for the correspondence harness of property C13.
+type VerifC13ErrInfo struct {
+	Found      bool
+	Outermost  bool // err itself is the *internalError (nothing wraps it)
+	Typ        string
+	NodePath   []string
+	StreamPath []string
+}
+
+// VerifC13Info inspects err the way wrapGraphNodeError does (errors.As for *internalError).
+func VerifC13Info(err error) VerifC13ErrInfo {
+	var ie *internalError
+	if err == nil || !errors.As(err, &ie) {
+		return VerifC13ErrInfo{}
+	}
+	_, outer := err.(*internalError)
+	r := VerifC13ErrInfo{Found: true, Outermost: outer, Typ: string(ie.typ)}
+	r.NodePath = append(r.NodePath, ie.nodePath.path...)
+	for _, a := range ie.streamWrapperPath {
+		r.StreamPath = append(r.StreamPath, string(a))
+	}
+	return r
+}
+
+// VerifC13PanicInfo walks err's Unwrap chain for an error built by safe.NewPanicErr.
+func VerifC13PanicInfo(err error) (info any, ok bool) {
+	for err != nil {
+		if i, ok := safe.VerifPanicInfo(err); ok {
+			return i, true
+		}
+		err = errors.Unwrap(err)
+	}
+	return nil, false
+}
